@@ -11,9 +11,12 @@ RULE = ("one trace per TdmsWriter program (as in C07: structure / array classes 
 
 CONFIGS = {
     "quick": [("MC_C07", "MC_C07_struct.cfg", {"MaxCalls": 2}),
+              # programs containing a call the writer refuses (RefusedWrite: raises, nothing written, nothing remembered)
+              ("MC_C07", "MC_C07_struct.cfg", {"MaxCalls": 2, "MaxRefused": 1, "ObjSeqs": "c_SeqsRefuse", "Lens": "{2}"}),
               ("MC_C07", "MC_C07_classes.cfg", {"MaxCalls": 2, "Lens": "{0, 3}"}),
               ("MC_C07", "MC_C07_props.cfg", {"MaxCalls": 1, "PropNamesW": '{"p1"}'})],
     "thorough": [("MC_C07", "MC_C07_struct.cfg", {"MaxCalls": 3, "Lens": "{2}"}),
+                 ("MC_C07", "MC_C07_struct.cfg", {"MaxCalls": 3, "MaxRefused": 2, "ObjSeqs": "c_SeqsRefuse", "Lens": "{2}"}),
                  ("MC_C07", "MC_C07_classes.cfg", {"MaxCalls": 3}),
                  ("MC_C07", "MC_C07_props.cfg", {"MaxCalls": 1})],
 }
